@@ -77,7 +77,7 @@ func oracle(p *progSpec, o *obsT, res *okT, er *errT) []hk.Failure {
 		fail("panic", "the call panicked / did not return instead of returning a response and an error", o.RtPanic, "a *Response")
 		return fs
 	}
-	mustEntry := p.Entry == "mustget" || p.Entry == "mustpost"
+	mustEntry := p.must()
 	hookRan := count(o.Log, -1, "onerror", 0) > 0
 	hookPanics := hookRan && p.HookMode == "panic"
 	// C1 / C2
